@@ -149,11 +149,14 @@ Record hook_conf := mk_hook {
 Definition str_SYMBOL : str := Str "SYMBOL".
 Definition str_NAME : str := Str "NAME".
 
-Definition top_is (vs : list tree) (s : str) : res bool :=
+(* Parser._previous_keyword(ip) == s : the text of the token on top of the value
+   stack, upper-cased (keywords are case-insensitive since the fix recorded in
+   known_findings.json); an empty stack or a Tree on top gives None *)
+Definition top_is (up : str -> str) (vs : list tree) (s : str) : res bool :=
   match vs with
-  | [] => Ok false                               (* `value_stack and ...`: guarded since the fix of the root-level IndexError *)
-  | Tok t :: _ => Ok (str_eqb (tval t) s)        (* Token == str compares the text, case-sensitively *)
-  | Node _ _ _ :: _ => Ok false                  (* Tree.__eq__ with a str is False *)
+  | [] => Ok false
+  | Tok t :: _ => Ok (str_eqb (up (tval t)) s)
+  | Node _ _ _ :: _ => Ok false
   end.
 
 Definition retype (t : token) (ty : N) : token :=
@@ -161,11 +164,11 @@ Definition retype (t : token) (ty : N) : token :=
 
 Definition hook (h : hook_conf) (t : token) (vs : list tree) : res token :=
   if ttype t =? h_unquoted h then
-    do b <- top_is vs str_SYMBOL;
+    do b <- top_is (h_upper h) vs str_SYMBOL;
     if b && negb (mem_str (h_upper h (tval t)) (h_symbol_attrs h)) then Ok (retype t (h_value h))
     else Ok t
   else if ttype t =? h_grid h then
-    do b <- top_is vs str_NAME;
+    do b <- top_is (h_upper h) vs str_NAME;
     if b then Ok (retype t (h_value h)) else Ok t
   else Ok t.
 
